@@ -21,12 +21,12 @@ UNIT = Unit(
         Adt(file=ANF, kw="enum", name="AExpr", rules=["attrs"]),
         Adt(file=ANF, kw="struct", name="Arm", rules=["attrs"]),
         Raw(path="contracts/ceffect.shim.rs"),
-        Fn(file=G + "compile.rs", name="compile_cexpr_effect", ret="r",
+        Fn(file=G + "compile.rs", name="compile_cexpr_effect", ret="r", rewrites=[(re.compile(r"crate::go::dce::effect_stmt\("), "effect_stmt(", "*")],
            obligation="effectful complex expressions (ECall, EDynCall, EGo) are never emitted as nothing",
            contract="""requires !cexpr_is_control(*expr),
         ensures
             cexpr_is_effect(*expr) ==> r@.len() == 1,
-            (*expr is ECall || *expr is EDynCall) ==> r@[0] == Stmt::Expr(go_call_of(goenv, expr)),
+            (*expr is ECall || *expr is EDynCall) ==> eff_stmt_ok(go_call_of(goenv, expr), r@[0]),
             *expr matches CExpr::EGo { closure, .. } ==> is_go_of(goenv, *closure, r@[0]),"""),
         Adt(file=G + "compile.rs", kw="struct", name="ClosureApplyFn", rules=["attrs", "pubfields", ("strip", "tast::")]),
         Fn(file=G + "compile.rs", name="compile_go", ret="r",
@@ -52,7 +52,7 @@ UNIT = Unit(
                       "whose precondition (not a control-flow form) holds at this, its only call site; an effectful expression (call, dyn call, go) yields exactly "
                       "one statement carrying it",
            contract="""ensures cexpr_is_effect(expr) ==> r@.len() == 1,
-            (expr is ECall || expr is EDynCall) ==> r@[0] == Stmt::Expr(go_call_of(goenv, &expr)),
+            (expr is ECall || expr is EDynCall) ==> eff_stmt_ok(go_call_of(goenv, &expr), r@[0]),
             expr matches CExpr::EGo { closure, .. } ==> is_go_of(goenv, *closure, r@[0]),"""),
     ],
 )
